@@ -351,62 +351,9 @@ static void climb_case(uint64_t n, unsigned rep, int iters) {
   case_end(n >= 2);
 }
 
-// tables built while other threads build theirs must be the same tables: worst-case transforms run with them have to
-// be congruent to the ones run with the sequentially built tables
-typedef struct {
-  uint64_t n;
-  q120_ntt_precomp *f, *i;
-  pthread_barrier_t* bar;
-} cbuild_t;
-static void* cbuild_worker(void* arg) {
-  cbuild_t* c = arg;
-  pthread_barrier_wait(c->bar);
-  c->f = q120_new_ntt_bb_precomp(c->n);
-  c->i = q120_new_intt_bb_precomp(c->n);
-  return 0;
-}
 static void concurrent_build_case(int T, unsigned rep) {
   if (!case_begin("q120_ntt/intt_bb_avx2|tables-built-concurrently", "threads=%d rep=%u", T, rep)) return;
-  rng_t* r = crng();
-  cbuild_t c[16];
-  pthread_t tid[16];
-  pthread_barrier_t bar;
-  pthread_barrier_init(&bar, 0, (unsigned)T);
-  for (int t = 0; t < T; t++) {
-    c[t].n = 1ull << (1 + rng_u64(r) % 14);
-    c[t].bar = &bar;
-    pthread_create(&tid[t], 0, cbuild_worker, &c[t]);
-  }
-  for (int t = 0; t < T; t++) pthread_join(tid[t], 0);
-  pthread_barrier_destroy(&bar);
-  uint64_t lanes = 0;
-  for (int t = 0; t < T; t++) {
-    const uint64_t n = c[t].n;
-    const unsigned lg = ilog2(n);
-    uint64_t* x = malloc(n * 32);
-    uint64_t* y = malloc(n * 32);
-    for (int inv = 0; inv < 2; inv++) {
-      q120_gen_b(r, (t + inv) & 1 ? QF_ALLMAX : QF_NONCANON, n, x);
-      memcpy(y, x, n * 32);
-      if (inv) {
-        q120_intt_bb_avx2(T_INTT[lg], (q120b*)x);
-        q120_intt_bb_avx2(c[t].i, (q120b*)y);
-      } else {
-        q120_ntt_bb_avx2(T_NTT[lg], (q120b*)x);
-        q120_ntt_bb_avx2(c[t].f, (q120b*)y);
-      }
-      for (uint64_t i = 0; i < 4 * n; i++)
-        if (x[i] % Q120[i & 3] != y[i] % Q120[i & 3]) {
-          viol("differential", "%s with a table built while %d threads were building tables: n=%" PRIu64 " lane %" PRIu64 " prime %d not congruent to the result with the table built alone", inv ? "intt" : "ntt", T, n, i / 4, (int)(i & 3));
-          break;
-        }
-      lanes += 4 * n;
-    }
-    free(x);
-    free(y);
-    q120_del_ntt_bb_precomp(c[t].f);
-    q120_del_intt_bb_precomp(c[t].i);
-  }
+  uint64_t lanes = q120_concurrent_build_check(T, crng(), T_NTT, T_INTT);
   cnt("concurrently_built_tables", 2 * (uint64_t)T);
   cnt("concurrent_build_lanes_compared", lanes);
   sample("%d threads built ntt+intt tables together; %" PRIu64 " worst-case lanes congruent to sequentially built tables", T, lanes);
@@ -417,6 +364,14 @@ static const uint64_t ELLS4[] = {0, 1, 2, 3, 5, 7, 9, 31, 101, 4095, 4097, 8191,
 
 void run_C04(void) {
   const int th = G.thorough;
+  for (unsigned rep = 0; rep < (th ? 40u : 4u); rep++) {
+    if (!case_begin("q120 product kernels|8 threads,private operands", "rep=%u", rep)) continue;
+    uint64_t calls = 0;
+    q120_concurrent_kernel_check(8, crng(), th ? 60000 : 12000, &calls);
+    cnt("concurrent_kernel_calls", calls);
+    sample("8 threads x %" PRIu64 " kernel calls, every result congruent to the exact sum", calls / 8);
+    case_end(1);
+  }
   // products on worst-case operands: every kernel, ref and avx2
   static const int FAMS[] = {QF_ALLMAX, QF_ALTERNATE, QF_SINGLEMAX, QF_NONCANON, QF_NEARMULT};
   for (int k = 0; k < N_KERNELS; k++)
